@@ -1,15 +1,19 @@
 """C06 — every owned value is destroyed exactly once, with nothing leaked.
  '106 | op ; op ..'  lifecycle history over a pool of opaque objects sharing one reference-counted context (see harness/prog/src/life.rs for the op codes);
      per op: result row and [context count above baseline; live instances; ids whose destructor ran].  The Coq model coq/model/Life.v predicts every row.
- '108 ..' casts (failed casts destroy the group; successful ones keep the instance)."""
+ '108 ..' casts (failed casts destroy the group; successful ones keep the instance).
+ '21 <elem> | op ; ..'  the runtime boxes themselves: CBox<T> (from a value, a Box, a (value, NoContext) pair) and CSliceBox<T> (from Box<[T]>, empty ones and
+     zero-sized elements included): read, write, into_opaque, into_inner, drop; per op the result row and the values whose destructor ran (coq/model/Boxed.v)."""
 PROP = "C06"
 PROP_V = "props/C06.v"
 RULE = ("random lifecycle histories (<=25 ops, a 8% ill-targeted stream) over {create node/clone-able/group, call, owned child, consuming child, consuming "
-        "plain, clone, cast ok/failing, upcast, drop} + fixed ones; all cast cells; non-trivial = more than 8 tokens; distinct by text")
+        "plain, clone, cast ok/failing, upcast, drop} + fixed ones; all cast cells; random histories over CBox/CSliceBox of four element types (heap-owning, zero-sized, "
+        "8-byte, 3-byte; empty slices; out-of-range writes; a 8% ill-targeted stream); non-trivial = more than 8 tokens; distinct by text")
 TRUSTED = [
     "hand-written generator model coq/model/{Glue,Group,Life}.v of cglue-gen; tied on every run by abstracting REAL expansions (cglue-gen called as a library, output parsed with syn) to the integer rows the model predicts, and by compiled programs using the real macros",
     "the abstraction harness/gen (statement shapes it does not recognise are encoded as 9/99, i.e. show up as disagreements, never guessed) and the program harness/prog",
     "rustc's own dispatch of <T as Trait>::m, Deref, and the From impls of the runtime wrapper types (C12)",
+    "hand-written model coq/model/Boxed.v of cglue/src/boxed.rs (CBox, CSliceBox: the values a box owns; Box::leak / Box::from_raw as moves), tied by running it and the real types on the same histories in harness/rt (tracking allocator, drop-logging element types)",
 ]
 ASSUMPTIONS = ["rustc code generation", "grammar = the shapes listed in coq/model/Glue.v (Pin receivers, generics, wrapped associated returns are covered by the compiled programs only)"]
 import os
@@ -49,5 +53,7 @@ def known_match(kf, l, fails):
 def gen_cases(rng, tier):
     a, d1 = G.life_cases(rng, tier, with_borrowed=False)
     b, d2 = G.cast_cases(rng, tier)
+    c, d3 = G.box_cases(rng.fork("box"), tier)
     d1.update(d2)
-    return a + b, d1
+    d1.update(d3)
+    return a + b + c, d1
